@@ -22,6 +22,71 @@ use core::ops::{AddAssign, BitOrAssign, ShlAssign};
 
 type ConstType = I9F23;
 
+/// Verification hooks: per-loop iteration counters (compiled only under
+/// `--cfg substrate_fixed_verif`).
+#[cfg(substrate_fixed_verif)]
+pub mod verif_hooks {
+    use core::sync::atomic::{AtomicU64, Ordering};
+
+    /// number of instrumented loop sites
+    pub const N_SITES: usize = 8;
+    /// site: Newton loop in `sqrt`
+    pub const SQRT_NEWTON: usize = 0;
+    /// site: integer-part loop in `log2_inner`
+    pub const LOG2_INT: usize = 1;
+    /// site: fractional-bits loop in `log2_inner`
+    pub const LOG2_FRAC: usize = 2;
+    /// site: series loop in `exp`
+    pub const EXP_SERIES: usize = 3;
+    /// site: multiplication loop in `powi`
+    pub const POWI: usize = 4;
+    /// site: CORDIC loop
+    pub const CORDIC: usize = 5;
+    /// site: `while angle > PI` loop in `sin`
+    pub const SIN_DOWN: usize = 6;
+    /// site: `while angle < -PI` loop in `sin`
+    pub const SIN_UP: usize = 7;
+
+    const Z: AtomicU64 = AtomicU64::new(0);
+    const M: AtomicU64 = AtomicU64::new(u64::MAX);
+    static COUNTS: [AtomicU64; N_SITES] = [Z; N_SITES];
+    static LIMITS: [AtomicU64; N_SITES] = [M; N_SITES];
+
+    /// reset all counters to zero
+    pub fn reset() {
+        for c in COUNTS.iter() {
+            c.store(0, Ordering::Relaxed);
+        }
+    }
+
+    /// read all counters
+    pub fn counts() -> [u64; N_SITES] {
+        let mut r = [0u64; N_SITES];
+        for (r, c) in r.iter_mut().zip(COUNTS.iter()) {
+            *r = c.load(Ordering::Relaxed);
+        }
+        r
+    }
+
+    /// set the iteration limit of one site (`u64::MAX` = unlimited)
+    pub fn set_limit(site: usize, limit: u64) {
+        LIMITS[site].store(limit, Ordering::Relaxed);
+    }
+
+    #[inline]
+    pub(super) fn tick(site: usize) {
+        let n = COUNTS[site].fetch_add(1, Ordering::Relaxed) + 1;
+        if n > LIMITS[site].load(Ordering::Relaxed) {
+            panic!("vf-iter-limit site={} count={}", site, n);
+        }
+    }
+}
+#[cfg(substrate_fixed_verif)]
+use self::verif_hooks::tick;
+#[cfg(not(substrate_fixed_verif))]
+#[inline(always)]
+fn tick(_site: usize) {}
+
 /// zero
 pub const ZERO: I9F23 = I9F23::from_bits(0i32 << 23);
 /// one
@@ -154,6 +219,7 @@ where
     // Newton iterations
     let mut l = (operand / D::from_num(2)) + D::from_num(1);
     for _i in 0..D::frac_nbits() {
+        tick(0);
         l = (l + operand / l) / D::from_num(2);
     }
     if invert {
@@ -178,6 +244,7 @@ where
     let lsb = (D::from_num(1) >> D::frac_nbits()).to_bits();
 
     while x >= TWO {
+        tick(1);
         result += lsb;
         x = rs(x);
     }
@@ -187,6 +254,7 @@ where
     };
 
     for _i in (0..D::frac_nbits()).rev() {
+        tick(2);
         x *= x;
         result <<= lsb;
         if x >= TWO {
@@ -248,6 +316,7 @@ where
     let mut term = operand;
 
     for i in 2..D::frac_nbits() {
+        tick(3);
         term = if let Some(r) = term.checked_mul(operand) {
             r
         } else {
@@ -336,6 +405,7 @@ where
     let mut r = operand;
 
     for _i in 1..exponent.abs() {
+        tick(4);
         r = if let Some(r) = r.checked_mul(operand) {
             r
         } else {
@@ -359,6 +429,7 @@ where
 {
     for (angle, i) in ARCTAN_ANGLES.iter().cloned().zip(0..) {
         let angle = T::lossy_from(angle);
+        tick(5);
         //if z == ZERO {
         //    break;
         //};
@@ -390,9 +461,11 @@ where
 {
     //wraparound
     while angle > PI {
+        tick(6);
         angle -= T::lossy_from(TWO_PI);
     }
     while angle < -PI {
+        tick(7);
         angle += T::lossy_from(TWO_PI);
     }
     //mirror
